@@ -210,7 +210,7 @@ def main():
             "enable": "environment variable CRUNCH_CUBE_VERIF=1 (set by ./check); the library is "
                       "imported from /repo/src of the current working tree, no build step",
             "baseline_off_cmd": "cd /repo && env -u CRUNCH_CUBE_VERIF /venv/bin/python -m pytest -ra -q -p no:cacheprovider --timeout=900 --continue-on-collection-errors",
-            "source_commits": ["844ca934"],
+            "source_commits": ["844ca934", "c131e5b0"],
             "add_only": True,
         },
         "engines": [
